@@ -25,7 +25,12 @@ INT_L1 = [
     "len({i: i + 1 for i in xs})", "{'a': x}['a']", "(x, y)[0]", "[x, y][1]", "len(xs[1:])", "len(xs[::2])", "sum(xs[:y])",
     "kwsum(**{'k': x}, **{'j': y})", "kwsum(**{'k': x}, j=y, **{'i': 1})", "func(*xs[:1], *xs[1:2], k=y)",
     "len(str(x)) - 1", "len(f'{x}') - 1", "len(f'{x!r:>3}') - 3", "x.real", "o.n + G", "C - y",
+    # displays holding values with an unusual ``==`` (W equals everything, V == ... has no truth value)
+    "len([W, x])", "len((V, y))", "func(len((W, V)), k=x)",
+    # starred elements of displays and unpacked mappings of dict displays
+    "len([*xs, x])", "sum((*xs, y))", "len({*xs, x})", "len({**{'k': x}, 'j': y})", "{**{'k': x}}['k']",
 ]
+DISPLAY_EXTRAS = INT_L1[-8:]
 BOOL_ATOMS = ["b", "o.flag", "True"]
 
 
@@ -45,7 +50,10 @@ def bool_l1(ints: Sequence[str]) -> List[str]:
             "{i: 0 for i in xs} == {}", "sorted(xs) == xs", "sorted(xs, reverse=True) == xs", "kwkeys(**{'k': x}, j=y) == ['j', 'k']",
             "kwkeys(j=y, **{'k': x}) == []", "all(x > 0 for x in xs)", "len([x for x in xs]) > x + 5",
             "str(all(i > 0 for i in xs)) == 'True'", "all(i for i in xs) and len(xs) > 2",
-            "any(10 // y > i for i in xs)"]
+            "any(10 // y > i for i in xs)",
+            # displays: values with an unusual ``==``; starred elements; unpacked mappings
+            "len([W, x]) > x", "len((V, y)) < y", "func(len((W, V)), k=x) > 5", "len([*xs, x]) > 3", "sum((*xs, y)) > 0",
+            "len({*xs, x}) > 2", "len({**{'k': x}, 'j': y}) > y", "{**{'k': x}}['k'] > 0", "[*xs, x] == [1]", "(W, x) == (1, 2)"]
     return out
 
 
@@ -71,7 +79,7 @@ def family(tier: str, seed: int) -> List[str]:
         if e not in seen:
             seen.append(e)
     # comparisons over every level-1 int expression
-    ints = INT_L1 if tier == "thorough" else INT_L1[::2] + ["len(f'{x!r:>3}') - 3", "func(**{'k': x})", "o.get(x)"]
+    ints = INT_L1 if tier == "thorough" else INT_L1[:-8:2] + ["len(f'{x!r:>3}') - 3", "func(**{'k': x})", "o.get(x)"]
     for i in ints:
         e = "{} > 0".format(i)
         if e not in seen:
@@ -234,9 +242,11 @@ def all_generators(expr: str) -> List[Tuple[str, str]]:
 # ---------------------------------------------------------------------------------------------
 MODULE_HEADER = '''"""generated by vfw.exprgen - regenerated on every run, do not edit"""
 import icontract
-from vfw.exprsupport import REC, Obj, func, kwsum, kwkeys
+from vfw.exprsupport import REC, Obj, func, kwsum, kwkeys, AnyEq, NoTruthEq
 
 G = 7
+W = AnyEq()
+V = NoTruthEq()
 # module-level names that collide with parameters of the conditions (the arguments must win)
 y = 77
 xs = [42, 42, 42]
